@@ -719,7 +719,7 @@ def _same_printed(a, b, d):
 def _fmt_limit(lim, val, d, v, rng):
     if math.isinf(lim):
         return "inf"
-    if v.get("pct_limits") and val > 0 and lim > 0:
+    if v.get("pct_limits") and val != 0 and lim != 0 and (val > 0) == (lim > 0) and math.isfinite(val):  # also negative values (K, Ky, moved limits)
         pct = lim / val * 100.0
         # only use the % spelling when it denotes the same number exactly (value * pct / 100 == lim)
         if val * pct / 100 == lim:
